@@ -876,7 +876,6 @@ class Translator:
             bad(block[0], "batch_idx is not a tuple of plain components")
         lay = lambda v: f"(layout_{v} inter n t pointIdx taskIdx)"
         self.getitem_full = "\n".join([
-            "Option.bind (getitemIdx dim e) fun idx =>",
             f"if {self.tcond(top.test, envt)} then",
             f"  {batch_only}",
             f"else if {self.tcond(top.orelse[0].test, envt)} then",
@@ -1243,10 +1242,13 @@ class Translator:
         L.append("def getitemIdx (dim : Int) (e : IdxExpr) : Option (List Idx) :=")
         L.append(indent_term(self.getitem_idx, 2))
         L.append("")
-        L.append("/-- the whole `__getitem__`: result class and covariance selection (batch-only branch, too-many-indices, "
-                 "layout assignment + dispatch) -/")
-        L.append("def getitemFull (inter : Bool) (dim n t : Int) (e : IdxExpr) : Option (OutKind × CovSel) :=")
+        L.append("/-- `__getitem__` after the preamble: batch-only branch, too-many-indices, layout assignment + dispatch -/")
+        L.append("def getitemDispatch (inter : Bool) (dim n t : Int) (idx : List Idx) : Option (OutKind × CovSel) :=")
         L.append(indent_term(self.getitem_full, 2))
+        L.append("")
+        L.append("/-- the whole `__getitem__`: result class and covariance selection -/")
+        L.append("def getitemFull (inter : Bool) (dim n t : Int) (e : IdxExpr) : Option (OutKind × CovSel) :=")
+        L.append("  Option.bind (getitemIdx dim e) fun idx => getitemDispatch inter dim n t idx")
         L.append("")
         L.append("/-- `d[pointIdx, taskIdx]` for `n` points, `t` tasks: layout assignment followed by the dispatch -/")
         L.append("def getitem (inter : Bool) (n t : Int) (pointIdx taskIdx : Idx) : Option (OutKind × List Int) :=")
